@@ -59,7 +59,7 @@ func main() {
 	repo := flag.String("repo", "/repo", "repository root")
 	verif := flag.String("verif", "/verif", "verif root")
 	out := flag.String("out", "", "output directory")
-	pkgsFlag := flag.String("pkgs", ".,./m3,./internal/cache", "packages to instrument")
+	pkgsFlag := flag.String("pkgs", ".,./m3,./internal/cache,./prometheus", "packages to instrument")
 	flag.Parse()
 	if *out == "" {
 		fatalf("-out required")
